@@ -265,6 +265,20 @@ def run(tier, seed, replay=None):
         for got, (want, dsc) in zip(res, qtt_want):
             if got != want: V.fail("correspondence(model/impl): mode sizes produced by to_qtt differ from the Coq model", dict(dsc, model=got, impl=want), failing_input=dsc.get("op") == "to_qtt-call")
             else: n_qtt_coq += 1
+    # reshape / permute / to_qtt read, the operand edited in place, read again (harness/staleprobe.py)
+    import staleprobe
+    npf = lambda t: t.full().detach().resolve_conj().numpy()
+    ex_t = [("reshape [4,2,8] -> [2,2,2,2,4]", lambda x: npf(torchtt.reshape(x, [2, 2, 2, 2, 4], 1e-13)), lambda D, x: D.reshape(2, 2, 2, 2, 4)),
+            ("reshape [4,2,8] -> [8,8]", lambda x: npf(torchtt.reshape(x, [8, 8], 1e-13)), lambda D, x: D.reshape(8, 8)),
+            ("permute [2,0,1]", lambda x: npf(torchtt.permute(x, [2, 0, 1], 1e-13)), lambda D, x: D.transpose(2, 0, 1)),
+            ("to_qtt", lambda x: npf(x.to_qtt(1e-13)), lambda D, x: D.reshape([2] * 6)),
+            ("to_qtt and back", lambda x: npf(x.to_qtt(1e-13).qtt_to_tens([4, 2, 8])), lambda D, x: D)]
+    ex_m = [("reshape (4,4),(2,2) -> (2,2)x3", lambda x: npf(torchtt.reshape(x, [(2, 2), (2, 2), (2, 2)], 1e-13)), lambda D, x: D.reshape([2] * 6)),
+            ("to_qtt (operator)", lambda x: npf(x.to_qtt(1e-13)), lambda D, x: D.reshape([2] * 6))]
+    muts = [m_ for m_ in staleprobe.MUTATIONS if m_ != "set_core new mode size"]
+    n_st = staleprobe.run_block(V, random.Random(seed + 17), torch, torchtt, "reshape / permute / to_qtt", ["cores"], 4 if tier == "quick" else 40, ex_t, muts, N=[4, 2, 8])
+    n_st += staleprobe.run_block(V, random.Random(seed + 18), torch, torchtt, "reshape / to_qtt of an operator", ["ttm"], 3 if tier == "quick" else 30, ex_m, muts, N=[4, 2])
+    dist["read-mutate-read probe: read-outs compared"] = n_st
     nviol = V.finish()
     cov = proofcheck.coverage(PID, obl, evaluations=n, distinct_nontrivial=len(dist) + n_coq,
         rule=("reshape of tensors (random ordered factorisations / merges of 6..64 elements with singleton modes anywhere) and operators, permute of tensors and operators (random "
